@@ -3,7 +3,7 @@
 From Coq Require Import ZArith List.
 Import ListNotations.
 From Mds Require Import Stree.StreeModel Stree.HeightModel Stree.HeightLimit Stree.HeightBasics
-  Stree.HeightRewrite Stree.HeightProofs.
+  Stree.HeightRewrite Stree.HeightProofs Stree.HeightTie Gen.StreeHeightConst.
 Local Open Scope Z_scope.
 
 (* (c) The exact depth limit (largest k with 2000^k <= n*(1000+b)^k, which is what limitFunc
@@ -75,3 +75,20 @@ Example C02_history_ex :
              ([ONew 0 [] []] ++ map (OAdd 0%nat) [1;2;3;4;5;6;7;8;9;10;11;12] ++ map (ORemove 0%nat) [1;2;3]) in
   map (fun t => (Len t, height (root t))) (fst r) = [(9, 3)] /\ snd r = [12].
 Proof. vm_compute. auto. Qed.
+
+(* the same for the capped limit min(limit_exact b n, n) that the replay driver uses *)
+Theorem C02_history_capped : forall (T : Type) (cmp : T -> T -> Z) (ops : list (op T)),
+  Forall2 (fun t P => 0 <= beta t < 1000 -> Len t <= P /\ Bound (beta t) P (root t))
+          (fst (run_with_peak cmp limit_capped ops)) (snd (run_with_peak cmp limit_capped ops)).
+Proof. intros T cmp. exact (history_bound cmp limit_capped limit_capped_H1 limit_capped_H2). Qed.
+Print Assumptions C02_history_capped.
+
+(* Tie: the depth limit reaches insert unchanged (the model writes [limit b (size+1)] there by
+   hand), and insert calls rewrite and t.limit once each. *)
+Theorem C02_tie_add_limit : forall lim,
+  add_insert_limit lim = lim /\ replace_insert_limit lim = lim /\
+  insert_ncalls_rewrite = 1 /\ insert_ncalls_limit = 1.
+Proof.
+  intros lim. exact (conj (add_insert_limit_plain lim) (conj (replace_insert_limit_plain lim) insert_calls)).
+Qed.
+Print Assumptions C02_tie_add_limit.
